@@ -5,7 +5,7 @@ use std::sync::Arc;
 
 pub fn run(v: &serde_json::Value, rep: &mut Report) -> Result<(), String> {
     let ops = v.get("ops").and_then(|x| x.as_array()).ok_or("missing ops")?;
-    let q = OrderQueue::new();
+    let mut q = OrderQueue::new();
     let mut model: Vec<OrderId> = vec![]; // FIFO of currently queued ids, in push order
     // executable form of the PROVED contracts: tickets are appended by push, consumed by pop, untouched by remove
     let mut tickets: std::collections::VecDeque<OrderId> = std::collections::VecDeque::new();
@@ -21,6 +21,20 @@ pub fn run(v: &serde_json::Value, rep: &mut Report) -> Result<(), String> {
                 model.push(o.id());
                 tickets.push_back(o.id());
                 let _ = allow_repush;
+            }
+            "build" => {
+                // replace the queue by one built from a list (From<Vec<..>>): it must hand the orders out in list order
+                let list = op.get("orders").and_then(|x| x.as_array()).ok_or("build without orders")?;
+                let mut v = vec![];
+                model.clear(); tickets.clear();
+                for jo in list {
+                    let jo: JOrder = serde_json::from_value(jo.clone()).map_err(|e| e.to_string())?;
+                    let o = build_order(&jo)?;
+                    if model.contains(&o.id()) { return Err("duplicate id in build list".into()); }
+                    model.push(o.id()); tickets.push_back(o.id());
+                    v.push(Arc::new(o));
+                }
+                q = if op.get("via").and_then(|x| x.as_str()) == Some("from_vec") { OrderQueue::from_vec(v) } else { OrderQueue::from(v) };
             }
             "pop" => {
                 let got = q.pop().map(|o| o.id());
